@@ -8,7 +8,7 @@ def plan(b):
     units = []
     for blk_kind in ("full", "ties"):
         for bi, blk in enumerate(b.get(blk_kind, [])):
-            for ci in range(len(hitx.candidates(blk["N"]))):
+            for ci in range(len(hitx.candidates(blk["N"], blk.get("kinds", hitx.KINDS)))):
                 units.append((blk_kind, bi, ci))
     if b.get("streams"):
         for u in streams.plan(b["streams"], lite=b.get("streams_lite", 0), fams=b.get("stream_families")):
@@ -35,10 +35,11 @@ def run_unit(unit, rec, b, clause_total, on_run, on_case, stream_depths=(10,)):
     if kind in ("full", "ties"):
         _, bi, ci = unit
         blk = b[kind][bi]
-        T = hitx.text(blk["N"])
-        first = hitx.candidates(blk["N"])[ci]
+        kinds = blk.get("kinds", hitx.KINDS)
+        T = hitx.text_for(blk["N"], blk.get("hi", False))
+        first = hitx.candidates(blk["N"], kinds)[ci]
         hits = ()
-        for hits in hitx.configs_from(first, blk["N"], blk["K"], tie_perms_only=(kind == "ties")):
+        for hits in hitx.configs_from(first, blk["N"], blk["K"], kinds=kinds, tie_perms_only=(kind == "ties")):
             for depth in blk["depths"]:
                 for mode in blk["modes"]:
                     for grouped in blk["grouped"]:
